@@ -374,6 +374,10 @@ package saml
 
 //@ contract elementToBytes
 //@ requires el: el != nil
+//@ -- the bytes handed to the XML decoder after the signature was checked are this call's own memory: not a buffer that a
+//@ -- pool, a cache or a package variable keeps and another request (whose message nobody signed) may write meanwhile
+//@ ghost func allocatedHereBytes(b []byte) bool
+//@ assert@return[C01,C18] #each (out []byte, rerr error) serialised_into_own_memory: out != nil ==> allocatedHereBytes(out)
 //@ contract elementToString
 //@ requires el: el != nil
 
@@ -458,7 +462,8 @@ package saml
 //@ requires[cfg] md: req.ServiceProviderMetadata != nil
 //@ -- the selected endpoint is one of the registered provider's assertion consumer services, never a request-only location
 //@ ensures[C05] registered: err == nil ==> registeredACS(req)
-//@ ensures[C05] descriptor: err == nil ==> req.SPSSODescriptor != nil
+//@ -- (C09: the assertion maker dereferences both without looking)
+//@ ensures[C05,C09] descriptor: err == nil ==> req.SPSSODescriptor != nil && req.ACSEndpoint != nil
 //@ ensures[C05] index_honoured: err == nil && req.Request.AssertionConsumerServiceIndex == "" && req.Request.AssertionConsumerServiceURL != "" ==>
 //@    req.ACSEndpoint.Location == req.Request.AssertionConsumerServiceURL
 //@ ensures[C05] default_binding: err == nil && req.Request.AssertionConsumerServiceIndex == "" && req.Request.AssertionConsumerServiceURL == "" ==>
@@ -504,7 +509,7 @@ package saml
 //@ ensures[C05] known_sp: err == nil ==> req.Request.Issuer != nil &&
 //@    RegistryHas(req.IDP.ServiceProviderProvider, req.Request.Issuer.Value, req.ServiceProviderMetadata)
 //@ ensures[C05] registered: err == nil ==> registeredACS(req)
-//@ ensures[C05,C06] descriptor: err == nil ==> req.SPSSODescriptor != nil
+//@ ensures[C05,C06,C09] descriptor: err == nil ==> req.SPSSODescriptor != nil && req.ACSEndpoint != nil
 
 //@ contract (*IdpAuthnRequest).getSPEncryptionCert
 //@ requires[cfg] d: req.SPSSODescriptor != nil
@@ -1109,6 +1114,13 @@ package saml
 //@    len(result.SPSSODescriptors[0].KeyDescriptors[1].KeyInfo.X509Data.X509Certificates) == 1 &&
 //@    result.SPSSODescriptors[0].KeyDescriptors[1].KeyInfo.X509Data.X509Certificates[0].Data ==
 //@      result.SPSSODescriptors[0].KeyDescriptors[0].KeyInfo.X509Data.X509Certificates[0].Data
+//@ -- the certificate that is published (first in the chain, the one a verifier takes the key from) is the certificate of the
+//@ -- key the messages are signed with; intermediates only follow it
+//@ go func leafFirst(chain []byte, leaf []byte) bool {
+//@    return len(chain) >= len(leaf) && forall(0, len(leaf), func(k int) bool { return chain[k] == leaf[k] }) }
+//@ loop 1 vars certBytes []byte
+//@ invariant[C13] leaf_stays_first: leafFirst(certBytes, sp.Certificate.Raw)
+//@ assert@call[C13] EncodeToString #each (enc *base64.Encoding, src []byte) publishes_own_certificate_first: leafFirst(src, sp.Certificate.Raw)
 //@ ensures[C13] acs: len(result.SPSSODescriptors[0].AssertionConsumerServices) == 2 &&
 //@    result.SPSSODescriptors[0].AssertionConsumerServices[0].Location == sp.AcsURL.String() &&
 //@    result.SPSSODescriptors[0].AssertionConsumerServices[0].Binding == HTTPPostBinding
@@ -1214,11 +1226,12 @@ package saml
 //@ contract (*Duration).UnmarshalText
 //@ ensures[C15] value: err == nil && text != nil && secondsBounded(text) ==> int64(*d) == durationOf(text)
 
-//@ -- the IdP calls back into its ServiceProviderProvider: callers must not hold a lock while entering it (C20)
+//@ -- the IdP calls back into its ServiceProviderProvider: callers must not hold a lock while entering it (C20; and C19:
+//@ -- a read lock taken twice with a writer in between is a request that never receives its reply)
 //@ contract (*IdentityProvider).ServeIDPInitiated
-//@ requires[C20] no_lock_held: NoLocksHeld()
+//@ requires[C20,C19] no_lock_held: NoLocksHeld()
 //@ contract (*IdentityProvider).ServeSSO
-//@ requires[C20] no_lock_held: NoLocksHeld()
+//@ requires[C20,C19] no_lock_held: NoLocksHeld()
 
 //@ -- ------------------------------------------------------------------------------------------
 //@ -- C15 / C02: the alias structs of the (Un)MarshalXML methods. Each time / duration field travels through its own
